@@ -121,15 +121,35 @@ macro_rules! delta_header {
                 kani::assume(bytes[0] & 0x80 == 0 && bytes[1] <= 4);
             }
             let r = DeltaBinaryPackedValueDecoder::<i32>::try_new(ReadCursor::from_slice(&bytes));
-            kani::cover!(r.is_ok());
             kani::cover!(r.is_err());
+            if $len >= 6 {
+                kani::cover!(r.is_ok());
+            }
             core::mem::forget(r);
         }
     };
 }
-// @h name=c19_delta_header_len4 props=C19 tier=quick
+// @h name=c19_delta_header_len4 props=C19 tier=thorough
 delta_header!(c19_delta_header_len4, 4);
-// @h name=c19_delta_header_len6 props=C19 tier=thorough
+// @h name=c19_delta_header_len6 props=C19 tier=quick
 delta_header!(c19_delta_header_len6, 6);
 // @h name=c19_delta_header_len2 props=C19 tier=thorough
 delta_header!(c19_delta_header_len2, 2);
+
+/// C19: a miniblock count taken from the header that exceeds what the page can hold must be
+/// rejected before it sizes the bit-width table (no allocation bounded only by the varint).
+// @h name=c19_delta_header_alloc_bounded props=C19 tier=quick
+#[kani::proof]
+#[kani::unwind(12)]
+#[kani::stub(alloc::fmt::format, crate::kani_verif_support::stub_format)]
+#[kani::stub(std::backtrace::Backtrace::capture, crate::kani_verif_support::stub_backtrace)]
+fn c19_delta_header_alloc_bounded() {
+    let bytes: [u8; 5] = kani::any();
+    // one-byte varints; miniblock count larger than the 3 bytes that follow it
+    kani::assume(bytes[0] & 0x80 == 0 && bytes[1] & 0x80 == 0 && bytes[1] > 3);
+    kani::cover!(bytes[1] == 127);
+    let r = DeltaBinaryPackedValueDecoder::<i32>::try_new(ReadCursor::from_slice(&bytes));
+    let is_err = r.is_err();
+    core::mem::forget(r);
+    assert!(is_err, "a miniblock count that cannot fit in the page is an error");
+}
